@@ -43,6 +43,7 @@ inductive Res
   | tooLarge           -- errSizeTooLarge
   | full               -- ErrQueueIsFull
   | ctxErr             -- ctx.Err()
+  | stopped            -- errQueueIsStopped: offered (or released from the overflow wait) after Shutdown
   | result (e : Nat)   -- wait_for_result: the error passed to OnDone (0 = nil)
 deriving Repr, DecidableEq
 
@@ -113,10 +114,12 @@ def accept (k : Cfg) (s : St) (p : Nat) (el : Int) : St :=
 def register (s : St) (p : Nat) (el : Int) : St :=
   { s with waiters := s.waiters ++ [p], ps := upd s.ps p { s.ps p with ph := .sel, el := el, sig := false } }
 
-/-- one evaluation of the `for mq.size+elSize > mq.cap` loop of `add`, holding the lock -/
+/-- one evaluation of the `for mq.size+elSize > mq.cap` loop of `add`, holding the lock, followed (when the element fits)
+by `if mq.stopped { return errQueueIsStopped }` -/
 def tryAdd (k : Cfg) (s : St) (p : Nat) (el : Int) : St :=
   if s.size + el > k.cap then
     if k.block then register s p el else refuse s p .full
+  else if s.stopped then refuse s p .stopped   -- the guard sits AFTER the overflow loop, still under the lock
   else accept k s p el
 
 /-- `items.pop()` inside Read -/
